@@ -195,10 +195,10 @@ func (w *world) observe(in *muxdrv.BlockInput, bp *blockPlan, res *muxdrv.BlockR
 
 	// ---- proposer reward (BeginBlock) ----
 	rewardRem, rewardCom := big.NewInt(0), big.NewInt(0)
-	if known && prev.height > 0 && cur.epoch != prev.epoch {
+	if prev.height > 0 && cur.epoch != prev.epoch {
 		// the scheduler's election rewards (AddRewards in its BeginBlock) emit the same kind of
 		// events for the same entities: the proposer's reward cannot be told apart
-		w.count("kskip/reward on an epoch-transition block")
+		w.observeEpochBlock(in, res, prev, cur, known, propAddr, nVE, nEV)
 	} else if known && prev.height > 0 {
 		ep := beacon.EpochTime(cur.epoch)
 		var scale *big.Int
@@ -264,12 +264,30 @@ func (w *world) observe(in *muxdrv.BlockInput, bp *blockPlan, res *muxdrv.BlockR
 		if s, ok := p.Slashing[staking.SlashConsensusEquivocation]; ok {
 			amt = s.Amount.ToBigInt()
 		}
+		// owners slashed for consensus misbehaviour: the entities named by the block's evidence;
+		// any other BeginBlock slash is the runtime liveness penalty (roothash stream)
+		evOwner := map[staking.Address]bool{}
+		for _, m := range bp.mis {
+			if e := prev.resolves[hex.EncodeToString(m.Validator.Address)]; e != nil {
+				evOwner[staking.NewAddress(*e)] = true
+			}
+		}
+		consAmt := amt
 		for _, t := range takeEscrows(res.BeginEvents) {
+			amt = consAmt
+			kind := "slash"
+			if !evOwner[t.Owner] {
+				if w.rt == nil {
+					w.count("kskip/slash of an entity not named by the evidence")
+					continue
+				}
+				amt, kind = w.rt.liveSlash, "slash (runtime liveness)"
+			}
 			v := get(t.Owner)
 			sd := t.DebondingAmount.ToBigInt()
 			sa := new(big.Int).Sub(t.Amount.ToBigInt(), sd)
 			call := fmt.Sprintf("CSlash %s %s %s", n(v[0]), n(v[1]), n(amt))
-			w.emit(h, "slash", call, fmt.Sprintf("OPair %s %s", n(sa), n(sd)), false)
+			w.emit(h, kind, call, fmt.Sprintf("OPair %s %s", n(sa), n(sd)), false)
 			if sa.Cmp(v[0]) == 0 && sd.Cmp(v[1]) == 0 {
 				w.count("slash-outcome/slashed to zero")
 			} else {
@@ -382,12 +400,11 @@ func (w *world) tallyCase(h int64, pr *governance.Proposal, cur *snap) {
 	votes := cur.votes[pr.ID]
 	var vt []string
 	voter := map[staking.Address]bool{}
-	nonVal := 0
+	nonVal, odd := 0, 0
 	for _, v := range votes {
-		name := map[governance.Vote]string{governance.VoteYes: "VYes", governance.VoteNo: "VNo", governance.VoteAbstain: "VAbstain"}[v.Vote]
-		if name == "" {
-			w.count("kskip/tally unknown vote value")
-			return
+		name := fmt.Sprintf("%d", uint8(v.Vote)) // any uint8 is stored by castVote
+		if v.Vote < 1 || v.Vote > 3 {
+			odd++
 		}
 		vt = append(vt, fmt.Sprintf("(%d, %s)", id(v.Voter), name))
 		voter[v.Voter] = true
@@ -414,7 +431,16 @@ func (w *world) tallyCase(h int64, pr *governance.Proposal, cur *snap) {
 	}
 	passed := pr.State == governance.StatePassed || pr.State == governance.StateFailed
 	call := fmt.Sprintf("CTally [%s] [%s] [%s] %d", strings.Join(vs, "; "), strings.Join(ds, "; "), strings.Join(vt, "; "), cur.govThr)
-	out := fmt.Sprintf("OTally %s %s %s %s", res(governance.VoteYes), res(governance.VoteNo), res(governance.VoteAbstain), cbool(passed))
+	other := new(big.Int)
+	for v, q := range pr.Results {
+		if v < 1 || v > 3 {
+			other.Add(other, q.ToBigInt())
+		}
+	}
+	out := fmt.Sprintf("OTally %s %s %s %s %s", res(governance.VoteYes), res(governance.VoteNo), res(governance.VoteAbstain), n(other), cbool(passed))
+	if odd > 0 {
+		w.count("tally-votes/with values outside yes-no-abstain")
+	}
 	w.emit(h, "tally", call, out, false)
 	switch {
 	case len(votes) == 0:
